@@ -206,6 +206,11 @@ pub fn case(line: &str) -> String {
                             _ => fields.push(format!("out=raw:{}", enc(&stdout))),
                         }
                     } else {
+                        // is the printed text well-formed when wrapped in an element that
+                        // declares the prefixes in scope? (only meaningful for element results)
+                        let wrapped = format!("<w xmlns:p=\"u\" xmlns:q=\"v\">{}</w>", stdout);
+                        let wf = matches!(xml_dom::XmlDocument::from_raw(wrapped.as_str()), Ok((rest, _)) if rest.is_empty());
+                        fields.push(format!("outwf={}", if wf { 1 } else { 0 }));
                         fields.push(format!("out=raw:{}", enc(&stdout)));
                         match expected_xq {
                             Some(e) => fields.push(format!("exp={}", enc(&e))),
